@@ -15,8 +15,8 @@ MANIFEST = {
 
 def op_job(name, entry, td, te, fam, timeout, extra=None, prop="ASSERT_C02", weight=1, mem=12, harness="pfx_ops.c", what=None):
     nodes = (1 << (td + 1)) - 1
-    srcrm = entry == "harness_src_remove"
-    us = {"trie_insert": td + 3, "trie_remove": td + 2 if srcrm else td + 3, "pfx_table_remove_id": td + 2,
+    srcrm = entry in ("harness_src_remove", "harness_notify_diff", "harness_copy_swap", "harness_free")
+    us = {"trie_insert": td + 2 if srcrm else td + 3, "trie_remove": td + 2 if srcrm else td + 3, "pfx_table_remove_id": td + 2,
           "pfx_table_for_each_rec": td + 3, "pfx_table_del_elem.0": te + 1 if srcrm else te + 2, "pfx_table_find_elem.0": te + 3, "pfx_table_elem_matches.0": te + 3,
           # src_remove: inner while / for over <= te(+1) records, outer while <= nodes in the subtree + 1
           "pfx_table_remove_id.0": te + 1, "pfx_table_remove_id.1": te + 1, "pfx_table_remove_id.2": nodes + 1,
